@@ -441,7 +441,7 @@ func (fr *Frame) materialize(st *State, p *Place) string {
 func (fr *Frame) callContract(ins *ssa.Call, fn *ssa.Function, fc *FuncContract, args []Val, st *State) []Val {
 	ex := fr.ex
 	vc := ex.vc
-	if !fc.HasMod && !fc.Pure {
+	if !fc.HasMod && !fc.Pure && !fc.HavocAll {
 		unsup("callee %s has a contract without a modifies clause", fn.Name())
 	}
 	vars := map[string]TVal{}
@@ -492,6 +492,10 @@ func (fr *Frame) callContract(ins *ssa.Call, fn *ssa.Function, fc *FuncContract,
 	}
 	for k := range whole {
 		ex.frameCheckWhole(fr, st, k, ins)
+	}
+	if fc.HavocAll {
+		ex.frameCheckAll(fr, st, ins)
+		ex.havocAll(st)
 	}
 	ex.applyHavoc(st, ts, whole)
 	if !fc.Pure {
